@@ -291,6 +291,6 @@ def cases(draw, measures):
 
 def units(tier):
     return [
-        Unit("random-walk", check, strategy=lambda: cases(["mfpt", "diffusion", "pagerank", "pagerank"]), examples=(1200, 16000), shards=(6, 16)),
-        Unit("spectral", check, strategy=lambda: cases(["subgraph", "eigenvector", "findwalks"]), examples=(1500, 20000), shards=(6, 16)),
+        Unit("random-walk", check, strategy=lambda: cases(["mfpt", "diffusion", "pagerank", "pagerank"]), examples=(4000, 20000), shards=(8, 16)),
+        Unit("spectral", check, strategy=lambda: cases(["subgraph", "eigenvector", "findwalks"]), examples=(5000, 25000), shards=(8, 16)),
     ]
